@@ -1,10 +1,428 @@
-/- Props/C14.lean — placeholder while the proofs are being written. -/
+/-
+Props/C14.lean — property C14: resize, pad and trim keep data centred and attached to its
+coordinates; zoom windows contain every unmasked pixel with its value.
+
+All theorems quantify over every source shape and target shape (every parity combination), every
+odd kernel shape, every mask, every value list (element type `α` arbitrary), every pixel scale and
+origin in any field of characteristic zero, every buffer ≥ 0 — no size bound.  They are stated
+about the `Impl` layer of Model/Resize.lean (the loop transliterations of
+`resized_array_2d_from`, `extracted_array_2d_from`, `Array2D.resized_from / padded_… / trimmed_…`,
+`Mask2D.resized_from / trimmed_array_from / zoom_region`, `Imaging.apply_mask`), which is what the
+driver executes against the Python.
+
+Arrays are row-major flat lists; pixel `(r,c)` of an `h×w` array `a` is `a[r*w + c]`.
+`Arr.WF a zero` is the invariant every `Array2D` satisfies after construction (well-formed mask,
+native values of the mask's shape, zeros at masked pixels).
+-/
 import Model.Resize
+import Proofs.Resize
+import Proofs.ResizeArr
+import Proofs.ResizePad
+import Proofs.ResizeZoom
+import Proofs.ResizeCoord
+import Proofs.ResizeBlur
+import Mathlib.Algebra.Order.Field.Rat
 
 open Model
 
 namespace C14
 
-theorem placeholder : (1 : Nat) = 1 := rfl
+/-! ### clause (a): resizing is a centred window copy -/
+
+/-- (a1) `resized_array_2d_from` (the loop nest, for the default centre and for any explicit
+    `origin`) equals the closed form: pixel `(r,c)` of the result is the source pixel
+    `(r + c_y − ⌊h'/2⌋, c + c_x − ⌊w'/2⌋)` when that lies in the source, else the pad value;
+    `(c_y, c_x) = (⌊h/2⌋, ⌊w/2⌋)` by default. -/
+theorem resized_eq_centred_window (src : List α) (h w h' w' : Nat) (origin : Option (Nat × Nat))
+    (pad zero : α) :
+    Impl.resizedArray2d src h w h' w' origin pad zero
+      = (pixels h' w').map fun p =>
+          let cy := (origin.getD (h / 2, w / 2)).1
+          let cx := (origin.getD (h / 2, w / 2)).2
+          let y : Int := (cy : Int) - ((h' / 2 : Nat) : Int) + (p.1 : Int)
+          let x : Int := (cx : Int) - ((w' / 2 : Nat) : Int) + (p.2 : Int)
+          if 0 ≤ y ∧ y < (h : Int) ∧ 0 ≤ x ∧ x < (w : Int) then src.getD (y.toNat * w + x.toNat) zero
+          else pad := by
+  rw [resizedArray2d_eq_at]; rfl
+
+/-- (a2) the same, read pixel by pixel, with the length of the result. -/
+theorem resized_getElem (src : List α) (h w h' w' : Nat) (pad zero : α) :
+    (Impl.resizedArray2d src h w h' w' none pad zero).length = h' * w'
+    ∧ ∀ r c, r < h' → c < w' →
+        (Impl.resizedArray2d src h w h' w' none pad zero)[r * w' + c]?
+          = some (let y : Int := ((h / 2 : Nat) : Int) - ((h' / 2 : Nat) : Int) + (r : Int)
+                  let x : Int := ((w / 2 : Nat) : Int) - ((w' / 2 : Nat) : Int) + (c : Int)
+                  if 0 ≤ y ∧ y < (h : Int) ∧ 0 ≤ x ∧ x < (w : Int) then
+                    src.getD (y.toNat * w + x.toNat) zero
+                  else pad) := by
+  rw [resizedArray2d_eq]
+  refine ⟨tab_length _ _ _, fun r c hr hc => ?_⟩
+  rw [tab_getElem? _ _ _ r c hr hc]; rfl
+
+/-- (a3) `Mask2D.resized_from`: pixel scales and origin are kept, the new mask is well formed with
+    the requested shape, and its bit at `(r,c)` is the source bit at the centred-window position,
+    or the mask pad value outside the source. -/
+theorem mask_resized_getElem (gm : Impl.GMask α) (hwf : gm.mask.WF) (h' w' : Nat) (pad : Bool) :
+    (Impl.maskResizedFrom gm h' w' pad).geom = gm.geom
+    ∧ (Impl.maskResizedFrom gm h' w' pad).mask.h = h'
+    ∧ (Impl.maskResizedFrom gm h' w' pad).mask.w = w'
+    ∧ (Impl.maskResizedFrom gm h' w' pad).mask.WF
+    ∧ ∀ r c, r < h' → c < w' →
+        (Impl.maskResizedFrom gm h' w' pad).mask.get r c
+          = (let y : Int := ((gm.mask.h / 2 : Nat) : Int) - ((h' / 2 : Nat) : Int) + (r : Int)
+             let x : Int := ((gm.mask.w / 2 : Nat) : Int) - ((w' / 2 : Nat) : Int) + (c : Int)
+             if 0 ≤ y ∧ y < (gm.mask.h : Int) ∧ 0 ≤ x ∧ x < (gm.mask.w : Int) then
+               gm.mask.get y.toNat x.toNat
+             else pad) := by
+  refine ⟨rfl, rfl, rfl, maskResized_WF gm h' w' pad, fun r c hr hc => ?_⟩
+  rw [maskResized_get gm h' w' pad r c hr hc]
+  unfold Spec.resizedAt Spec.srcIndex
+  simp only
+  split
+  · rename_i hin
+    exact bits_getD_eq_get gm.mask hwf _ _ (by omega) (by omega)
+  · rfl
+
+/-- (a4) `Array2D.resized_from`: the mask is resized as in (a3) (same centred window, mask pad
+    value), the values are the same centred window of the native values padded with zero and
+    zeroed where the new mask is masked; the storage flag is kept and the result satisfies the
+    `Array2D` invariant. -/
+theorem array_resized_native (a : Impl.Arr α) (h' w' : Nat) (maskPad : Bool) (zero : α) :
+    (Impl.arrayResizedFrom a h' w' maskPad zero).gm = Impl.maskResizedFrom a.gm h' w' maskPad
+    ∧ (Impl.arrayResizedFrom a h' w' maskPad zero).storeNative = a.storeNative
+    ∧ (Impl.arrayResizedFrom a h' w' maskPad zero).WF zero
+    ∧ ∀ r c, r < h' → c < w' →
+        (Impl.arrayResizedFrom a h' w' maskPad zero).native.getD (r * w' + c) zero
+          = if (Impl.maskResizedFrom a.gm h' w' maskPad).mask.get r c then zero
+            else
+              (let y : Int := ((a.gm.mask.h / 2 : Nat) : Int) - ((h' / 2 : Nat) : Int) + (r : Int)
+               let x : Int := ((a.gm.mask.w / 2 : Nat) : Int) - ((w' / 2 : Nat) : Int) + (c : Int)
+               if 0 ≤ y ∧ y < (a.gm.mask.h : Int) ∧ 0 ≤ x ∧ x < (a.gm.mask.w : Int) then
+                 a.native.getD (y.toNat * a.gm.mask.w + x.toNat) zero
+               else zero) := by
+  refine ⟨rfl, rfl, arrayResized_WF a h' w' maskPad zero, fun r c hr hc => ?_⟩
+  rw [arrayResized_native_getD a h' w' maskPad zero r c hr hc]; rfl
+
+/-- (a5) `extracted_array_2d_from(array, y0, y1, x0, x1)` is the window `array[y0:y1, x0:x1]`
+    with zeros where the window leaves the source (any signed window corners). -/
+theorem extracted_eq_window (src : List α) (h w : Nat) (y0 y1 x0 x1 : Int) (zero : α) :
+    Impl.extractedArray2d src h w y0 y1 x0 x1 zero
+      = (pixels (y1 - y0).toNat (x1 - x0).toNat).map fun p =>
+          let y : Int := y0 + (p.1 : Int)
+          let x : Int := x0 + (p.2 : Int)
+          if 0 ≤ y ∧ 0 ≤ x ∧ y ≤ (h : Int) - 1 ∧ x ≤ (w : Int) - 1 then
+            src.getD (y.toNat * w + x.toNat) zero
+          else zero := by
+  rw [extractedArray2d_eq]; rfl
+
+/-! ### clause (b): the window is centred -/
+
+/-- (b1) along one axis `n → n'` the window offset is `t = ⌊n/2⌋ − ⌊n'/2⌋`.  Cropping (`n' ≤ n`):
+    `t` rows are removed before and `n − n' − t` after, all `n'` kept rows are source rows, and the
+    two margins differ by at most one — they are equal when the parity is preserved.
+    Embedding (`n ≤ n'`): `−t` pad rows before and `n' − n + t` after, differing by at most one,
+    equal when the parity is preserved. -/
+theorem centred_margins (n n' : Nat) :
+    let t : Int := ((n / 2 : Nat) : Int) - ((n' / 2 : Nat) : Int)
+    (n' ≤ n → 0 ≤ t ∧ t + n' ≤ n ∧ (t - ((n : Int) - n' - t)).natAbs ≤ 1
+        ∧ (n % 2 = n' % 2 → t = (n : Int) - n' - t))
+    ∧ (n ≤ n' → 0 ≤ -t ∧ -t + n ≤ n' ∧ (-t - ((n' : Int) - n + t)).natAbs ≤ 1
+        ∧ (n % 2 = n' % 2 → -t = (n' : Int) - n + t)) := by
+  intro t
+  constructor <;> intro hle <;> refine ⟨?_, ?_, ?_, ?_⟩ <;> omega
+
+/-- (b2) centred crop: for `h' ≤ h`, `w' ≤ w` no pad value appears; pixel `(r,c)` of the result is
+    source pixel `(r + t, c + u)` with `t = ⌊h/2⌋ − ⌊h'/2⌋`, `u = ⌊w/2⌋ − ⌊w'/2⌋`. -/
+theorem crop_is_centred (src : List α) (h w h' w' : Nat) (pad zero : α) (hh : h' ≤ h) (hw : w' ≤ w)
+    (r c : Nat) (hr : r < h') (hc : c < w') :
+    (Impl.resizedArray2d src h w h' w' none pad zero)[r * w' + c]?
+      = some (src.getD ((r + (h / 2 - h' / 2)) * w + (c + (w / 2 - w' / 2))) zero)
+    ∧ r + (h / 2 - h' / 2) < h ∧ c + (w / 2 - w' / 2) < w := by
+  refine ⟨?_, by omega, by omega⟩
+  rw [resizedArray2d_eq, tab_getElem? _ _ _ r c hr hc]
+  unfold Spec.resizedAt Spec.srcIndex
+  have hin : 0 ≤ ((h / 2 : Nat) : Int) - ((h' / 2 : Nat) : Int) + (r : Int)
+      ∧ ((h / 2 : Nat) : Int) - ((h' / 2 : Nat) : Int) + (r : Int) < (h : Int)
+      ∧ 0 ≤ ((w / 2 : Nat) : Int) - ((w' / 2 : Nat) : Int) + (c : Int)
+      ∧ ((w / 2 : Nat) : Int) - ((w' / 2 : Nat) : Int) + (c : Int) < (w : Int) := by omega
+  simp only [hin, and_self, if_true]
+  have e1 : (((h / 2 : Nat) : Int) - ((h' / 2 : Nat) : Int) + (r : Int)).toNat = r + (h / 2 - h' / 2) := by
+    omega
+  have e2 : (((w / 2 : Nat) : Int) - ((w' / 2 : Nat) : Int) + (c : Int)).toNat = c + (w / 2 - w' / 2) := by
+    omega
+  rw [e1, e2]
+
+/-- (b3) centred embedding: for `h ≤ h'`, `w ≤ w'` the source occupies rows `t … t+h−1`, columns
+    `u … u+w−1` (`t = ⌊h'/2⌋ − ⌊h/2⌋`, `u = ⌊w'/2⌋ − ⌊w/2⌋`) unchanged; everything else is pad. -/
+theorem embed_is_centred (src : List α) (h w h' w' : Nat) (pad zero : α) (hh : h ≤ h') (hw : w ≤ w')
+    (r c : Nat) (hr : r < h') (hc : c < w') :
+    (Impl.resizedArray2d src h w h' w' none pad zero)[r * w' + c]?
+      = some (if (h' / 2 - h / 2 ≤ r ∧ r < h' / 2 - h / 2 + h) ∧ (w' / 2 - w / 2 ≤ c ∧ c < w' / 2 - w / 2 + w)
+              then src.getD ((r - (h' / 2 - h / 2)) * w + (c - (w' / 2 - w / 2))) zero else pad)
+    ∧ h' / 2 - h / 2 + h ≤ h' ∧ w' / 2 - w / 2 + w ≤ w' := by
+  refine ⟨?_, by omega, by omega⟩
+  rw [resizedArray2d_eq, tab_getElem? _ _ _ r c hr hc]
+  unfold Spec.resizedAt Spec.srcIndex
+  by_cases hin : (h' / 2 - h / 2 ≤ r ∧ r < h' / 2 - h / 2 + h) ∧ (w' / 2 - w / 2 ≤ c ∧ c < w' / 2 - w / 2 + w)
+  · have hin' : 0 ≤ ((h / 2 : Nat) : Int) - ((h' / 2 : Nat) : Int) + (r : Int)
+        ∧ ((h / 2 : Nat) : Int) - ((h' / 2 : Nat) : Int) + (r : Int) < (h : Int)
+        ∧ 0 ≤ ((w / 2 : Nat) : Int) - ((w' / 2 : Nat) : Int) + (c : Int)
+        ∧ ((w / 2 : Nat) : Int) - ((w' / 2 : Nat) : Int) + (c : Int) < (w : Int) := by omega
+    simp only [hin, hin', and_self, if_true]
+    have e1 : (((h / 2 : Nat) : Int) - ((h' / 2 : Nat) : Int) + (r : Int)).toNat = r - (h' / 2 - h / 2) := by
+      omega
+    have e2 : (((w / 2 : Nat) : Int) - ((w' / 2 : Nat) : Int) + (c : Int)).toNat = c - (w' / 2 - w / 2) := by
+      omega
+    rw [e1, e2]
+  · have hin' : ¬(0 ≤ ((h / 2 : Nat) : Int) - ((h' / 2 : Nat) : Int) + (r : Int)
+        ∧ ((h / 2 : Nat) : Int) - ((h' / 2 : Nat) : Int) + (r : Int) < (h : Int)
+        ∧ 0 ≤ ((w / 2 : Nat) : Int) - ((w' / 2 : Nat) : Int) + (c : Int)
+        ∧ ((w / 2 : Nat) : Int) - ((w' / 2 : Nat) : Int) + (c : Int) < (w : Int)) := by omega
+    simp only [hin, hin', if_false]
+
+/-- (b4) `trimmed_after_convolution_from(k)` alone (odd `k`, smaller than the array): the values
+    come from a numpy slice, the mask from the centred `resized_from` — both are the centred crop by
+    the same `((k_y−1)/2, (k_x−1)/2)` offset, so values stay attached to their mask bits; geometry and
+    storage flag are kept and the result satisfies the `Array2D` invariant. -/
+theorem trimmed_is_centred_crop (a : Impl.Arr α) (kh kw : Nat) (zero : α) (hkh : kh % 2 = 1)
+    (hkw : kw % 2 = 1) (hwf : a.WF zero) (hh : kh - 1 < a.gm.mask.h) (hw : kw - 1 < a.gm.mask.w) :
+    ∃ t, Impl.trimmedAfterConvolution a kh kw zero = some t
+      ∧ t.gm.geom = a.gm.geom ∧ t.gm.mask.h = a.gm.mask.h - (kh - 1) ∧ t.gm.mask.w = a.gm.mask.w - (kw - 1)
+      ∧ t.storeNative = a.storeNative ∧ t.WF zero
+      ∧ ∀ r c, r < a.gm.mask.h - (kh - 1) → c < a.gm.mask.w - (kw - 1) →
+          t.gm.mask.get r c = a.gm.mask.get ((kh - 1) / 2 + r) ((kw - 1) / 2 + c)
+          ∧ t.native.getD (r * (a.gm.mask.w - (kw - 1)) + c) zero
+              = a.native.getD (((kh - 1) / 2 + r) * a.gm.mask.w + ((kw - 1) / 2 + c)) zero := by
+  obtain ⟨cy, rfl⟩ : ∃ cy, kh = 2 * cy + 1 := ⟨kh / 2, by omega⟩
+  obtain ⟨cx, rfl⟩ : ∃ cx, kw = 2 * cx + 1 := ⟨kw / 2, by omega⟩
+  have e1 : 2 * cy + 1 - 1 = 2 * cy := by omega
+  have e2 : 2 * cx + 1 - 1 = 2 * cx := by omega
+  have e3 : 2 * cy / 2 = cy := by omega
+  have e4 : 2 * cx / 2 = cx := by omega
+  simp only [e1, e2, e3, e4] at hh hw ⊢
+  exact trimmed_at a zero hwf cy cx hh hw
+
+/-! ### clause (c): round trips lose nothing -/
+
+/-- (c1) enlarging then shrinking back is the identity for **every** parity combination and any pad
+    values — raw arrays. -/
+theorem shrink_enlarge_identity (a : List α) (h w h' w' : Nat) (pad pad' zero : α) (hh : h ≤ h')
+    (hw : w ≤ w') (ha : a.length = h * w) :
+    Impl.resizedArray2d (Impl.resizedArray2d a h w h' w' none pad zero) h' w' h w none pad' zero = a :=
+  shrink_enlarge a h w h' w' pad pad' zero hh hw ha
+
+/-- (c2) the same for `Mask2D.resized_from` (mask, pixel scales and origin all restored). -/
+theorem mask_shrink_enlarge_identity (gm : Impl.GMask α) (hwf : gm.mask.WF) (h' w' : Nat)
+    (pad pad' : Bool) (hh : gm.mask.h ≤ h') (hw : gm.mask.w ≤ w') :
+    Impl.maskResizedFrom (Impl.maskResizedFrom gm h' w' pad) gm.mask.h gm.mask.w pad' = gm :=
+  maskResized_there_and_back gm hwf h' w' pad pad' hh hw
+
+/-- (c3) the same for `Array2D.resized_from` (mask, geometry, values, storage flag). -/
+theorem array_shrink_enlarge_identity (a : Impl.Arr α) (zero : α) (hwf : a.WF zero) (h' w' : Nat)
+    (hh : a.gm.mask.h ≤ h') (hw : a.gm.mask.w ≤ w') (mp mp' : Bool) :
+    Impl.arrayResizedFrom (Impl.arrayResizedFrom a h' w' mp zero) a.gm.mask.h a.gm.mask.w mp' zero = a :=
+  arrayResized_there_and_back a zero hwf h' w' hh hw mp mp'
+
+/-- (c4) `trimmed_after_convolution_from(k)` after `padded_before_convolution_from(k)` is the
+    identity on `Array2D`s for every odd kernel shape (either mask pad value). -/
+theorem trim_pad_identity (a : Impl.Arr α) (kh kw : Nat) (maskPad : Bool) (zero : α)
+    (hkh : kh % 2 = 1) (hkw : kw % 2 = 1) (hwf : a.WF zero) (hh : 0 < a.gm.mask.h)
+    (hw : 0 < a.gm.mask.w) :
+    Impl.trimmedAfterConvolution (Impl.paddedBeforeConvolution a kh kw maskPad zero) kh kw zero
+      = some a :=
+  trim_pad a kh kw maskPad zero hkh hkw hwf hh hw
+
+/-- (c5) `Mask2D.trimmed_array_from(padded, image_shape)` applied to the array padded for an odd
+    kernel returns the original native values and shape. -/
+theorem trimmed_array_from_padded (a : Impl.Arr α) (kh kw : Nat) (maskPad : Bool) (zero : α)
+    (hkh : kh % 2 = 1) (hkw : kw % 2 = 1) (hwf : a.WF zero) :
+    Impl.trimmedArrayFrom (Impl.paddedBeforeConvolution a kh kw maskPad zero).native
+        (a.gm.mask.h + (kh - 1)) (a.gm.mask.w + (kw - 1)) a.gm.mask.h a.gm.mask.w zero
+      = some (a.gm.mask.h, a.gm.mask.w, a.native) := by
+  obtain ⟨cy, rfl⟩ : ∃ cy, kh = 2 * cy + 1 := ⟨kh / 2, by omega⟩
+  obtain ⟨cx, rfl⟩ : ∃ cx, kw = 2 * cx + 1 := ⟨kw / 2, by omega⟩
+  unfold Impl.paddedBeforeConvolution
+  simp only [Nat.add_sub_cancel]
+  exact trimmedArrayFrom_padded a zero hwf cy cx maskPad
+
+/-! ### clause (d): parity preserved ⇒ coordinates, data and noise stay attached -/
+
+/-- (d0) when the automatic padding of `Imaging.apply_mask` fires: for an odd kernel
+    `(2c_y+1)×(2c_x+1)`, `blurring_from` completes (no padding) iff the kernel footprint of every
+    unmasked pixel lies inside the frame; otherwise data and noise map are both padded for the kernel
+    with masked pixels. -/
+theorem auto_padding_iff (data noise : List α) (gm : Impl.GMask α) (cy cx : Nat) (zero : α) :
+    (Impl.imagingApplyMask data noise gm (2 * cy + 1) (2 * cx + 1) zero
+        = (Impl.arrayWithMask data gm zero, Impl.arrayWithMask noise gm zero)
+      ∨ Impl.imagingApplyMask data noise gm (2 * cy + 1) (2 * cx + 1) zero
+        = (Impl.paddedBeforeConvolution (Impl.arrayWithMask data gm zero) (2 * cy + 1) (2 * cx + 1) true zero,
+           Impl.paddedBeforeConvolution (Impl.arrayWithMask noise gm zero) (2 * cy + 1) (2 * cx + 1) true zero))
+    ∧ (Impl.imagingApplyMask data noise gm (2 * cy + 1) (2 * cx + 1) zero
+        = (Impl.arrayWithMask data gm zero, Impl.arrayWithMask noise gm zero)
+      ↔ (∀ y x, y < gm.mask.h → x < gm.mask.w → gm.mask.get y x = false →
+            cy ≤ y ∧ y + cy < gm.mask.h ∧ cx ≤ x ∧ x + cx < gm.mask.w)) := by
+  have hiff := blurringFits_iff gm.mask cy cx
+  unfold Impl.imagingApplyMask
+  by_cases hfit : Impl.blurringFits gm.mask (2 * cy + 1) (2 * cx + 1) = true
+  · simp only [hfit, if_true, true_or, true_and, true_iff]
+    exact hiff.mp hfit
+  · simp only [hfit, Bool.false_eq_true, if_false, or_true, true_and]
+    have hne : ¬(cy = 0 ∧ cx = 0) := by
+      rintro ⟨rfl, rfl⟩
+      apply hfit
+      apply hiff.mpr
+      intro y x hy hx _
+      omega
+    constructor
+    · intro heq
+      exfalso
+      have h1 := congrArg (fun p : Impl.Arr α × Impl.Arr α => p.1.gm.mask.h) heq
+      have h2 := congrArg (fun p : Impl.Arr α × Impl.Arr α => p.1.gm.mask.w) heq
+      simp only [Impl.paddedBeforeConvolution, Impl.arrayResizedFrom, Impl.maskResizedFrom,
+        Impl.arrayWithMask] at h1 h2
+      omega
+    · intro h
+      exact absurd (hiff.mpr h) hfit
+
+section Coordinates
+variable {F : Type} [Field F] [CharZero F]
+
+/-- (d1) the pixel-centre coordinates computed by `grid_2d_slim_via_mask_from` are
+    `y = o_y + ((H−1)/2 − i)·s_y`, `x = o_x + (j − (W−1)/2)·s_x` (non-zero pixel scales). -/
+theorem pixel_centre_closed_form (h w : Nat) (oy ox sy sx : F) (i j : Nat) (hsy : sy ≠ 0)
+    (hsx : sx ≠ 0) :
+    Impl.pixelCentreY h oy sy i = oy + (((h - 1 : Nat) : F) / 2 - (i : F)) * sy
+    ∧ Impl.pixelCentreX w ox sx j = ox + ((j : F) - ((w - 1 : Nat) : F) / 2) * sx := by
+  rw [pixelCentreY_eq h oy sy i hsy, pixelCentreX_eq w ox sx j hsx]
+  unfold Spec.centreY Spec.centreX
+  simp
+
+/-- (d2) if a resize `H → H'` preserves the parity of the number of rows, the pixel that survives
+    from row `i` into row `i'` (`i' + ⌊H/2⌋ = i + ⌊H'/2⌋`, the centred-window correspondence of (a))
+    has the same y coordinate in the new frame — same origin, same scale. -/
+theorem coordinate_kept_y (h h' i i' : Nat) (oy sy : F) (hsy : sy ≠ 0) (h1 : 1 ≤ h) (h1' : 1 ≤ h')
+    (hpar : h % 2 = h' % 2) (hidx : i' + h / 2 = i + h' / 2) :
+    Impl.pixelCentreY h' oy sy i' = Impl.pixelCentreY h oy sy i := by
+  rw [pixelCentreY_eq _ _ _ _ hsy, pixelCentreY_eq _ _ _ _ hsy]
+  exact centreY_kept h h' i i' oy sy h1 h1' hpar hidx
+
+/-- (d3) the same for columns / x. -/
+theorem coordinate_kept_x (w w' j j' : Nat) (ox sx : F) (hsx : sx ≠ 0) (h1 : 1 ≤ w) (h1' : 1 ≤ w')
+    (hpar : w % 2 = w' % 2) (hidx : j' + w / 2 = j + w' / 2) :
+    Impl.pixelCentreX w' ox sx j' = Impl.pixelCentreX w ox sx j := by
+  rw [pixelCentreX_eq _ _ _ _ hsx, pixelCentreX_eq _ _ _ _ hsx]
+  exact centreX_kept w w' j j' ox sx h1 h1' hpar hidx
+
+/-- (d4) PSF padding (`padded_before_convolution_from` for an odd kernel, mask pad value 1 as used
+    by the automatic padding): the slim values and the slim grid of pixel-centre coordinates of the
+    padded array are those of the original array, entry by entry in the same order; the geometry
+    (pixel scales, origin) is unchanged.  Hence the (coordinate, value) pairs of the unmasked
+    pixels are unchanged. -/
+theorem padding_keeps_triples (a : Impl.Arr F) (zero : F) (kh kw : Nat) (hkh : kh % 2 = 1)
+    (hkw : kw % 2 = 1) (hwf : a.WF zero) (hh : 1 ≤ a.gm.mask.h) (hw : 1 ≤ a.gm.mask.w)
+    (hsy : a.gm.geom.sy ≠ 0) (hsx : a.gm.geom.sx ≠ 0) :
+    let P := Impl.paddedBeforeConvolution a kh kw true zero
+    P.gm.geom = a.gm.geom
+    ∧ Impl.slimFrom P.gm.mask P.native zero = Impl.slimFrom a.gm.mask a.native zero
+    ∧ Impl.gridSlimViaMask P.gm.mask P.gm.geom = Impl.gridSlimViaMask a.gm.mask a.gm.geom := by
+  obtain ⟨cy, rfl⟩ : ∃ cy, kh = 2 * cy + 1 := ⟨kh / 2, by omega⟩
+  obtain ⟨cx, rfl⟩ : ∃ cx, kw = 2 * cx + 1 := ⟨kw / 2, by omega⟩
+  intro P
+  have hP : P = Impl.arrayResizedFrom a (a.gm.mask.h + 2 * cy) (a.gm.mask.w + 2 * cx) true zero := by
+    show Impl.paddedBeforeConvolution a _ _ true zero = _
+    unfold Impl.paddedBeforeConvolution
+    simp only [Nat.add_sub_cancel]
+  rw [hP]
+  exact ⟨rfl, slim_padded a zero hwf cy cx, grid_padded a zero hwf cy cx a.gm.geom hsy hsx hh hw⟩
+
+/-- (d5) `Imaging.apply_mask(mask)` with an odd PSF: whether or not the automatic padding fires
+    (`blurring_from` raising), the data values, the noise values and the pixel-centre coordinates
+    of the unmasked pixels — in slim order — are exactly those of the unpadded masked dataset;
+    data and noise map end up on the same mask with the mask's pixel scales and origin. -/
+theorem apply_mask_keeps_triples (data noise : List F) (gm : Impl.GMask F) (kh kw : Nat) (zero : F)
+    (hkh : kh % 2 = 1) (hkw : kw % 2 = 1) (hwf : gm.mask.WF) (hh : 1 ≤ gm.mask.h) (hw : 1 ≤ gm.mask.w)
+    (hsy : gm.geom.sy ≠ 0) (hsx : gm.geom.sx ≠ 0) :
+    let r := Impl.imagingApplyMask data noise gm kh kw zero
+    r.1.gm = r.2.gm ∧ r.1.gm.geom = gm.geom
+    ∧ Impl.slimFrom r.1.gm.mask r.1.native zero = Impl.slimFrom gm.mask (Impl.applyMask gm.mask data zero) zero
+    ∧ Impl.slimFrom r.2.gm.mask r.2.native zero = Impl.slimFrom gm.mask (Impl.applyMask gm.mask noise zero) zero
+    ∧ Impl.gridSlimViaMask r.1.gm.mask r.1.gm.geom = Impl.gridSlimViaMask gm.mask gm.geom := by
+  intro r
+  have hd := arrayWithMask_WF data gm zero hwf
+  have hn := arrayWithMask_WF noise gm zero hwf
+  by_cases hfit : Impl.blurringFits gm.mask kh kw = true
+  · have hr : r = (Impl.arrayWithMask data gm zero, Impl.arrayWithMask noise gm zero) := by
+      show Impl.imagingApplyMask data noise gm kh kw zero = _
+      unfold Impl.imagingApplyMask
+      simp only [hfit, if_true]
+    rw [hr]
+    exact ⟨rfl, rfl, rfl, rfl, rfl⟩
+  · have hr : r = (Impl.paddedBeforeConvolution (Impl.arrayWithMask data gm zero) kh kw true zero,
+        Impl.paddedBeforeConvolution (Impl.arrayWithMask noise gm zero) kh kw true zero) := by
+      show Impl.imagingApplyMask data noise gm kh kw zero = _
+      unfold Impl.imagingApplyMask
+      simp only [hfit]
+      rfl
+    rw [hr]
+    obtain ⟨d1, d2, d3⟩ := padding_keeps_triples (Impl.arrayWithMask data gm zero) zero kh kw hkh hkw hd
+      hh hw hsy hsx
+    obtain ⟨_, n2, _⟩ := padding_keeps_triples (Impl.arrayWithMask noise gm zero) zero kh kw hkh hkw hn
+      hh hw hsy hsx
+    exact ⟨rfl, d1, d2, n2, d3⟩
+
+end Coordinates
+
+/-! ### clause (e): zooming -/
+
+/-- (e) for every unmasked pixel `(y,x)` of the array's mask and every buffer ≥ 0: `zoom_region`
+    exists, the zoom window `[y0−b, y1+b) × [x0−b, x1+b)` contains `(y,x)`, the zoomed array has the
+    window's shape, and at the pixel's position inside the window it carries the pixel's native
+    value. -/
+theorem zoom_contains_unmasked (a : Impl.Arr α) (zero : α) (buffer : Int) (hb : 0 ≤ buffer) (y x : Nat)
+    (hy : y < a.gm.mask.h) (hx : x < a.gm.mask.w) (hm : a.gm.mask.get y x = false) :
+    ∃ y0 y1 x0 x1 zh zw vals,
+      Impl.zoomRegion a.gm.mask = some (y0, y1, x0, x1)
+      ∧ Impl.zoomedAroundMask a buffer zero = some (zh, zw, vals)
+      ∧ y0 - buffer ≤ (y : Int) ∧ (y : Int) < y1 + buffer
+      ∧ x0 - buffer ≤ (x : Int) ∧ (x : Int) < x1 + buffer
+      ∧ (zh : Int) = y1 + buffer - (y0 - buffer) ∧ (zw : Int) = x1 + buffer - (x0 - buffer)
+      ∧ vals.length = zh * zw
+      ∧ vals.getD (((y : Int) - (y0 - buffer)).toNat * zw + ((x : Int) - (x0 - buffer)).toNat) zero
+          = a.native.getD (y * a.gm.mask.w + x) zero :=
+  zoomed_contains a zero buffer hb y x hy hx hm
+
+/-! ### non-vacuity -/
+
+/-- concrete instances: 2×3 → 4×4 (even/odd mix), back again; a 3×3 array with an unmasked corner
+    padded for a 3×3 kernel and trimmed; the automatic padding fires; zoom region of a non-square
+    mask; every hypothesis used above (`WF`, odd kernels, non-zero scales) is met. -/
+example :
+    Impl.resizedArray2d [1, 2, 3, 4, 5, 6] 2 3 4 4 none 9 0
+      = [9, 9, 9, 9, 9, 1, 2, 3, 9, 4, 5, 6, 9, 9, 9, 9]
+    ∧ Impl.resizedArray2d [9, 9, 9, 9, 9, 1, 2, 3, 9, 4, 5, 6, 9, 9, 9, 9] 4 4 2 3 none 7 0
+      = [1, 2, 3, 4, 5, 6]
+    ∧ Impl.resizedArray2d [1, 2, 3, 4, 5, 6] 2 3 1 2 none 9 0 = [4, 5]
+    ∧ Impl.zoomRegion ⟨3, 4, [true, false, true, true, true, true, true, true, true, true, false, true]⟩
+      = some (0, 3, 1, 3)
+    ∧ Impl.blurringFits ⟨3, 3, [false, true, true, true, true, true, true, true, true]⟩ 3 3 = false
+    ∧ Impl.blurringFits ⟨3, 3, [true, true, true, true, false, true, true, true, true]⟩ 3 3 = true := by
+  decide
+
+example :
+    let a : Impl.Arr Rat :=
+      ⟨⟨⟨2, 2, [false, true, true, false]⟩, ⟨1 / 2, 2, 1 / 4, -1⟩⟩, [5, 0, 0, 7], false⟩
+    a.WF 0 ∧ a.gm.geom.sy ≠ 0 ∧ a.gm.geom.sx ≠ 0
+    ∧ (Impl.paddedBeforeConvolution a 3 5 true 0).gm.mask
+        = ⟨4, 6, [true, true, true, true, true, true,
+                  true, true, false, true, true, true,
+                  true, true, true, false, true, true,
+                  true, true, true, true, true, true]⟩
+    ∧ Impl.slimFrom (Impl.paddedBeforeConvolution a 3 5 true 0).gm.mask
+        (Impl.paddedBeforeConvolution a 3 5 true 0).native 0 = [5, 7]
+    ∧ Impl.gridSlimViaMask a.gm.mask a.gm.geom = [(1 / 2, -2), (0, 0)]
+    ∧ Impl.gridSlimViaMask (Impl.paddedBeforeConvolution a 3 5 true 0).gm.mask a.gm.geom
+        = [(1 / 2, -2), (0, 0)] := by
+  refine ⟨⟨by decide, by decide, by decide +kernel⟩, by decide +kernel, by decide +kernel,
+    by decide +kernel, by decide +kernel, ?_, ?_⟩ <;> decide +kernel
 
 end C14
